@@ -40,6 +40,14 @@ def wide_cases(tier, seed):
             neg = sorted(rnd.randrange(0, 4) for _ in range(nneg))
             sc, ec = rnd.choice(["pos", "neg"]), rnd.choice(["pos", "neg"])
             out.append({"pos": pos, "neg": neg, "ep": ep, "en": en, "sc": sc, "ec": ec})
+    # class sizes N at which fl(fl(1/N) * N) != 1 (49, 98, 103, 107, 161, 187, ...): the 1/N shift
+    # must not move a target of exactly 0 or 1 off the end of the scale
+    for (npos, nneg) in ((49, 54), (98, 9), (107, 54), (54, 49), (9, 98)) + (((161, 26), (196, 1)) if tier == "thorough" else ()):
+        for sc, ec in itertools.product(["pos", "neg"], repeat=2):
+            ep, en = rnd.choice([(0, 0), (0, 0), (3, 0), (0, 5), (2, 7)])
+            out.append({"pos": sorted(rnd.randrange(0, 12) for _ in range(npos)),
+                        "neg": sorted(rnd.randrange(0, 12) for _ in range(nneg)),
+                        "ep": ep, "en": en, "sc": sc, "ec": ec})
     return out
 
 
@@ -61,8 +69,10 @@ def run(ctx: core.Ctx):
     # (2) independent trace: wide easy-sample counts, only the extreme targets
     wide = wide_cases(ctx.tier, ctx.seed)
     base = len(cases)
+    # + scores of huge magnitude (2^55 apart, around 2^60): one ulp is then far more than 1.0
+    fam2 = fam + [gamma.affine(2.0 ** 55, 2.0 ** 60), gamma.affine(2.0 ** 55, -2.0 ** 60)]
     for j, o in enumerate(wide):
-        g = fam[(j + ctx.seed) % len(fam)]
+        g = fam2[(j + ctx.seed) % len(fam2)]
         evs = []
         ev = sd.make_ev(evs, ids, base + j, g)
         s = sd.new_event(ev, o, g)
